@@ -39,7 +39,7 @@ const c14Nodes = 10
 
 var c14KindNames = map[int]string{0: "add-master", 1: "remove-master", 2: "add-replica", 3: "remove-replica", 4: "move-range", 5: "move-single-slot",
 	6: "failover", 7: "reparent-replica", 8: "flag-node", 9: "unflag-all", 10: "link-down", 11: "heal-info", 12: "addr-form", 13: "migration-markers",
-	14: "two-changes-with-a-late-probe-reply",
+	14: "two-changes-with-a-late-probe-reply", 15: "replace-node",
 	20: "unusable-error-reply", 21: "unusable-nil-reply", 22: "unusable-oversized", 23: "unusable-short-lines"}
 
 func c14Gen(t *rapid.T) c14Case {
@@ -66,7 +66,34 @@ func c14Gen(t *rapid.T) c14Case {
 		c.Init.Reps[0]++
 	}
 	n := rapid.IntRange(2, 6).Draw(t, "nsteps")
-	kinds := []int{0, 1, 2, 2, 3, 4, 4, 5, 6, 6, 7, 7, 8, 9, 10, 11, 12, 13, 14, 14, 20, 21, 22, 23}
+	kinds := []int{0, 1, 2, 2, 3, 4, 4, 5, 6, 6, 7, 7, 8, 9, 10, 11, 12, 13, 14, 14, 15, 20, 21, 22, 23}
+	if rapid.IntRange(0, 5).Draw(t, "rolling") == 0 {
+		// rolling replacement: a small cluster whose nodes are replaced one after the other by nodes at new
+		// addresses (same roles, same slots), then further changes
+		c.Init = genTopoSpec(t, 0, 0, false)
+		for len(c.Init.Reps) > 3 {
+			c.Init.Reps = c.Init.Reps[:len(c.Init.Reps)-1]
+		}
+		for len(c.Init.Reps) < 3 {
+			c.Init.Reps = append(c.Init.Reps, 0)
+		}
+		for i := range c.Init.Reps {
+			c.Init.Reps[i] = 0
+		}
+		for i := range c.Init.Ranges {
+			c.Init.Ranges[i][2] = i % 3
+		}
+		if len(c.Init.Ranges) < 3 {
+			c.Init.Ranges = [][3]int{{0, 5460, 0}, {5461, 10922, 1}, {10923, 16383, 2}}
+		}
+		for i := 0; i < 3; i++ {
+			c.Steps = append(c.Steps, c14Step{Kind: 15, A: i, B: rapid.IntRange(0, 1000).Draw(t, "b")})
+		}
+		for i := rapid.IntRange(1, 2).Draw(t, "after"); i > 0; i-- {
+			c.Steps = append(c.Steps, c14Step{Kind: rapid.SampledFrom([]int{4, 5, 0, 2}).Draw(t, "kind"), A: rapid.IntRange(0, 1000).Draw(t, "a"), B: rapid.IntRange(0, 1000).Draw(t, "b"), C: rapid.IntRange(0, 16383).Draw(t, "c")})
+		}
+		return c
+	}
 	for i := 0; i < n; i++ {
 		c.Steps = append(c.Steps, c14Step{Kind: rapid.SampledFrom(kinds).Draw(t, "kind"), A: rapid.IntRange(0, 1000).Draw(t, "a"), B: rapid.IntRange(0, 1000).Draw(t, "b"), C: rapid.IntRange(0, 16383).Draw(t, "c")})
 	}
@@ -401,6 +428,27 @@ func (m *c14Model) apply(s c14Step) string {
 	case 12:
 		m.topo.AddrForm = []int{3, 4, 7}[s.A%3]
 		return fmt.Sprintf("address form %d", m.topo.AddrForm)
+	case 15: // a node is replaced by one at a new address (a restarted pod): same role, same slots, same replicas
+		if len(ab) == 0 || len(m.topo.Nodes) == 0 {
+			return ""
+		}
+		// the A-th of the nodes that have been there longest (so that a rolling replacement walks through all of them)
+		xi := s.A % len(m.topo.Nodes)
+		if s.A < len(m.topo.Nodes) {
+			xi = 0
+		}
+		x := m.topo.Nodes[xi]
+		y := ab[s.B%len(ab)]
+		nn := fakecluster.TNode{ID: m.cl.Nodes[y].ID, Node: y, Master: x.Master, MasterID: x.MasterID, Slots: x.Slots}
+		for i := range m.topo.Nodes {
+			if m.topo.Nodes[i].MasterID == x.ID {
+				m.topo.Nodes[i].MasterID = nn.ID
+			}
+		}
+		delete(m.infoBad, x.Node)
+		m.remove(x.Node)
+		m.topo.Nodes = append(m.topo.Nodes, nn)
+		return fmt.Sprintf("node %d is replaced by node %d (new address, same role and slots)", x.Node, y)
 	case 13:
 		if len(ms) < 2 {
 			return ""
